@@ -83,8 +83,13 @@ def w_insert(idx):
     return n, out
 
 
+def hash_(s):
+    return sum(ord(c) * (i + 1) for i, c in enumerate(s))
+
+
 def run(rep, tier, seed):
     from harness.world import Node  # noqa: F401
+    G["n_long"] = 0
     wd, rules, node_map, dfas = c01.prepare(rep, tier, pid=PID)
     budget = 400 if tier == "quick" else 6000
     cfgp = os.path.join(wd, "MC_Insert.cfg")
@@ -151,15 +156,18 @@ def run(rep, tier, seed):
         walks = [w for w in c01.live_walks(d2, per, rnd, maxlen=10) if w and c01.FOREIGN not in w and d.out[d.run(w)] == "ACCEPT"]
         # a long sequence too (one loop of the automaton pumped): TLC's Acceptable is quadratic in the length, so 40-60
         # children in general and 257+ only for a few small rules in the thorough tier
+        n_long = G.get("n_long", 0)
         if len(sig) <= 8:
-            reps = (257, 300) if (tier == "thorough" and len(sig) <= 3) else (50, 62)
+            G["n_long"] = n_long + 1
+            reps = (257, 300) if (tier == "thorough" and len(sig) <= 3) else (50, 52)
             walks += [w for w in c01.pumped_words(d2, rnd, count=1, reps=reps) if w and c01.FOREIGN not in w and d.out[d.run(w)] == "ACCEPT"][:1]
         for v in walks[:per + 1]:
             # short walks: one random child removed; long ones: the first, the last and a random child removed, and every
             # name of the rule offered to the sequence without its last child (wide parents, ends of the list)
-            trials = [(list(v[:pos] + v[pos + 1:]), v[pos]) for pos in ({rnd.randrange(len(v))} | ({0, len(v) - 1} if len(v) >= 40 else set()))]
+            trials = [(list(v[:pos] + v[pos + 1:]), v[pos]) for pos in ({rnd.randrange(len(v))} if len(v) < 40 else ({0, len(v) - 1} if tier == "quick" else {0, len(v) - 1, rnd.randrange(len(v))}))]
             if len(v) >= 40:
-                trials += [(list(v[:-1]), c) for c in sig if not c.startswith("~")]
+                names_ = [c for c in sig if not c.startswith("~")]
+                trials += [(list(v[:-1]), c) for c in (names_ if tier == "thorough" else sorted(set(names_[-2:])))]
             for w, c in trials:
                 kind, got = call_index(unit, elem.get(unit), w, c, rules)
                 if kind == "raised":
